@@ -216,6 +216,10 @@ func randomValue(r *gen.R, layout string) *rfc8907.Value {
 			}
 			v.Args = append(v.Args, makeArg(r, n))
 		}
+		if layout == rfc8907.AuthorRequest && len(v.Args) < 255 && r.Chance(1, 6) {
+			// the line-ending argument devices append to a command, in its usual spellings
+			v.Args = append(v.Args, []byte(r.PickS("cmd-arg=<cr>", "cmd-arg=<CR>", "cmd-arg*<cr>", "cmd-arg= <cr> ")))
+		}
 	}
 	return v
 }
